@@ -378,12 +378,18 @@ class Interp:
             self.exec_stmt(st, frame)
 
     def site(self, node: ast.AST, frame: Frame) -> str:
-        try:
-            txt = ast.unparse(node)
-        except Exception:
-            txt = type(node).__name__
-        txt = " ".join(txt.split())
-        return f"{frame.qualname}: {txt[:100]}"
+        txt = getattr(node, "_pyvc_site_text", None)  # memoised on the (shared, immutable) AST node: unparse once per statement, not per execution
+        if txt is None:
+            try:
+                txt = ast.unparse(node)
+            except Exception:
+                txt = type(node).__name__
+            txt = " ".join(txt.split())[:100]
+            try:
+                node._pyvc_site_text = txt  # type: ignore[attr-defined]
+            except Exception:
+                pass
+        return f"{frame.qualname}: {txt}"
 
     def exec_stmt(self, st: ast.stmt, frame: Frame) -> None:
         S = self.S
